@@ -184,7 +184,8 @@ func (e *episode) grow(n int) {
 			rw := btc.GetBlockReward(e.height())
 			spec.CoinbaseOuts = []chainkit.OutSpec{{Value: rw / 2, Script: anyone}, {Value: rw - rw/2, Script: e.key.P2PKH()}}
 		}
-		oc := e.judge("grow", e.k.Build(spec), i == n-1)
+		// full dump (real vs reference vs model vs spec) after every block (thorough) / every 2nd and the last (quick)
+		oc := e.judge("grow", e.k.Build(spec), i == n-1 || i%e.r.N(2, 1) == 0)
 		if oc == nil || !oc.accepted {
 			e.dead = true
 		}
@@ -669,7 +670,7 @@ func kinds() []kindEntry {
 }
 
 func runEpisodes(r *vlib.Run, o *vlib.Oracle) {
-	ks := append(kinds(), moreKinds()...) // multi.go
+	ks := append(append(kinds(), moreKinds()...), extraKinds()...) // multi.go, extra.go
 	totalW := 0
 	for _, k := range ks {
 		totalW += k.weight
